@@ -79,6 +79,12 @@ def check_case(chk, md, res, model, stream, stats):
                            "expected": "stub dummy list and PSy-layer actual list agree in count, type, kind, rank",
                            "stub": res["stub"], "call": res["call"]})
         return True
+    if md["mesh"] and any(a["k"] == "cma" for a in md["args"]):
+        # a CMA kernel with meta_mesh makes BOTH real generators raise InternalError ("unsupported mesh
+        # property NCELL_2D"): no argument list exists on either side, nothing to compare (outside Valid)
+        stats["cma_with_mesh_property_skipped"] += 1
+        chk.case({"md": md, "stream": stream}, nontrivial=False, agreed=True)
+        return False
     if md["operates_on"] == "dof":
         # user-supplied DoF kernels: the pinned PSyclone has no code generation for them (outside Valid)
         stats["dof_kernel_skipped"] += 1
@@ -147,7 +153,9 @@ def run(chk):
         "docOrder is a hand formalisation of 'Rules for General-Purpose Kernels' (reading choices in "
         "Model/ArgOrderDoc.lean); CMA / inter-grid / domain rule sections are not formalised",
         "stencil extents in metadata are never set (PSyclone raises NotImplementedError for them)",
-        "user-supplied DoF kernels are outside Valid: the pinned PSyclone cannot generate code for them"]
+        "user-supplied DoF kernels are outside Valid: the pinned PSyclone cannot generate code for them",
+        "CMA kernels with meta_mesh are not compared: both real generators crash on them (InternalError, "
+        "unsupported mesh property NCELL_2D)"]
     chk.cov["trusted_base"] = [
         "Lean 4.33.0 kernel", "axioms propext/Classical.choice/Quot.sound only (audited)",
         "translator harness/props/c21_atoms.py (probe kernels -> Gen/ArgOrder.lean), name-based classification of "
